@@ -106,4 +106,14 @@ def lemma_pack_bools(n: int, bits: int) -> bool:
     return all(0 <= p <= 255 for p in packed)
 
 
-SPLITS = {'lemma_pack_bools': ('n', 0, 10), 'lemma_escape_one_byte': ('q', 2)}
+def twin_escape_split(b: int, q: int) -> bool:
+    """
+    pre: 0 <= b <= 255 and 0 <= q <= 1
+    post: __return__
+    """
+    # vacuity twin of the partitioned lemmas: claims that escaping never lengthens a byte
+    quote = b'"' if q == 0 else b"'"
+    return len(_escape_bytes(bytes([b]), quote)) == 1
+
+
+SPLITS = {'twin_escape_split': ('q', 2), 'lemma_pack_bools': ('n', 0, 10), 'lemma_escape_one_byte': ('q', 2)}
